@@ -38,6 +38,20 @@ Theorem C07_generated_code_noast :
 Proof. exact generated_code_noast. Qed.
 Print Assumptions C07_generated_code_noast.
 
+(** ... and that is what every execution returns (the goto semantics is deterministic, Proofs/ExecDet.v) *)
+Theorem C07_generated_code_noast_every_execution :
+  forall g ptx buf penv, good_grammar g -> good_buf buf -> good_switches g ->
+  forall inline n r st0 rr,
+    (forall rb, nth_error g ptx = Some rb -> rb = RNil) ->
+    deep_table_b g inline = true -> o_inline (mk_opts false false inline g) r = false -> reached (count_rules g) r = true ->
+    peg_parse g ptx buf penv (S n) r = Some rr ->
+    forall res, xcall buf penv (mk_opts false false inline g) (gen_fn_noast g ptx inline) r (reset st0) res ->
+      exists st', res = Ret (match fst rr with Fail => false | Succ _ _ => true end) st' /\
+        alog st' = execute g ptx (snd rr) (text st0) /\
+        match fst rr with Succ p _ => pos st' = p /\ p <= length buf | Fail => True end.
+Proof. exact generated_code_noast_every. Qed.
+Print Assumptions C07_generated_code_noast_every_execution.
+
 (** -noast together with -switch: the -noast parser of the optimised tree terminates with the verdict
     and the consumed prefix of the PEG semantics of the ORIGINAL tree - the language of the default
     parser (C01) - for every grammar with a well-formedness certificate and a consistent analysis table,
